@@ -108,6 +108,28 @@ def random_schedule(rnd, nsend=(0, 4), term_p=0.5, close_p=0.1, steps=60):
     return sched
 
 
+def close_point_schedules(tier):
+    ''' The connection goes away (close() by either user) at every point of a short exchange: session up, one or
+    two bundles of length 0 / 1 / several segments queued by A, then j callbacks, then the close.  What was
+    reported before and at the close must be true (a transfer reported 'success' is held by the receiver). '''
+    est = [{'op': 'start', 'e': 'A', 'arg': 0}, {'op': 'start', 'e': 'P', 'arg': 0}]
+    for _ in range(3):
+        for (op, e) in (('tx', 'A'), ('rx', 'P'), ('tx', 'P'), ('rx', 'A')):
+            est.append({'op': op, 'e': e, 'arg': 0})
+    work = [('pq', 'A'), ('tx', 'A'), ('rx', 'P'), ('tx', 'P'), ('rx', 'A'), ('pq', 'A'), ('tx', 'A'), ('rx', 'P'),
+            ('tx', 'P'), ('rx', 'A')]
+    out = []
+    for lens in ((0,), (1,), (3,), (0, 0), (1, 0), (0, 2)) if tier != 'thorough' else \
+            ((0,), (1,), (3,), (5,), (0, 0), (1, 0), (0, 2), (0, 0, 0), (2, 0, 1)):
+        for j in range(len(work) + 1):
+            for closer in ('A', 'P'):
+                sched = list(est) + [{'op': 'send', 'e': 'A', 'arg': n} for n in lens]
+                sched += [{'op': op, 'e': e, 'arg': 0} for (op, e) in work[:j]]
+                sched.append({'op': 'close', 'e': closer, 'arg': 0})
+                out.append((sched, {'lengths': list(lens), 'callbacks_before_close': j, 'closed_by': closer}))
+    return out
+
+
 def run_schedule(sched, profile='tiny', seed=0, keepalive=(0, 0), idle=(0, 0), final_pop=True, eagain=False,
                  max_tail=4000):
     ''' Replay one schedule into two real endpoints.
